@@ -4,6 +4,8 @@ package main
 
 import (
 	"math"
+	"reflect"
+	"sort"
 	"strconv"
 	"strings"
 )
@@ -11,7 +13,7 @@ import (
 // ---- payloads -------------------------------------------------------------------
 
 var payloadValid = []string{"a", "bc", "key", " ", "  ", "\n", "\n\n", startM, endM, "\xc3\x97", redactedM, "?", "é", "日本", "\U0001f6d1",
-	"\"", "`", "\\", "\t", "\x00", "%", "%d", "0", "-1", "x=1", "‹un›", "›‹", "<nil>", "Z",
+	"\"", "`", "\\", "\t", "\x00", "\x7f", "\x1b", "\r", "\ufffd", "\ufeff", "\u2028", "\u00ad", "a\x7fb", "%", "%d", "0", "-1", "x=1", "‹un›", "›‹", "<nil>", "Z",
 	// valid runes whose encoding shares bytes with the markers (E2 80 B9 / E2 80 BA)
 	"º", "¹", "‰", "※", "€", "\u0080", "к", "☺", "⁹", "₺"}
 var payloadInvalid = []string{"\xe2", "\xe2\x80", "\x80\xb9", "\x80\xba", "\xb9", "\xff", "\xf0\x9f", "\xc3", "\xe2\x80\xe2\x80\xb9"}
@@ -22,6 +24,7 @@ type genOpts struct {
 	panics      bool // panicking methods
 	safeKinds   bool // SafeValue-marked and Reg* kinds
 	addrs       bool // values whose rendering contains an address (pointers at depth>0, chan, func)
+	starKinds   bool // '*' operands of other types than int (all integer kinds incl. huge unsigned values; non-integers)
 	maxDepth    int
 }
 
@@ -64,7 +67,7 @@ func randInt(r *Rng) int64 { return intValues[r.Intn(len(intValues))] }
 
 // leaf kinds by family
 var scalarKinds = []string{"bool", "int", "int8", "int16", "int32", "int64", "uint", "uint8", "uint16", "uint32", "uint64", "uintptr",
-	"float32", "float64", "complex64", "complex128", "string", "bytes", "NInt", "NStr", "NBool", "NFloat", "NBytes", "NUint8", "barr", "nil"}
+	"float32", "float64", "complex64", "complex128", "string", "bytes", "NInt", "NStr", "NBool", "NFloat", "NBytes", "NUint8", "barr", "barr8", "nbarr", "nbslice", "SNArr", "nil"}
 var pointerKinds = []string{"ptrInt", "nilPtrInt", "ptrStr", "nilMap", "nilSlice", "nilChan", "nilFunc", "ptrptr", "parr", "iarr", "sarr", "SArr", "SNils", "NFunc"}
 var addrKinds = []string{"chan", "func", "uptr", "NChan"}
 var methodKinds = []string{"Stringer", "PStringer", "NilPStringer", "PStringerVal", "Err", "StdErr", "WrapErr", "PErr", "NilPErr", "ErrStringer",
@@ -109,10 +112,13 @@ func leafOfKind(r *Rng, k string, o genOpts) *D {
 		if r.Chance(1, 5) {
 			d.S = QS([]string{"NaN", "+Inf", "-Inf", "-0"}[r.Intn(4)])
 		}
+		if r.Chance(1, 5) {
+			d.N = 9001 + int64(r.Intn(5)) // imaginary part NaN, +Inf, -Inf, -0, a small fraction
+		}
 	case "SArr":
 		d.S = QS(randPayload(r, o))
 		d.N = randInt(r)
-	case "string", "NStr", "bytes", "NBytes", "barr", "ptrStr", "parr", "sarr", "Stringer", "PStringer", "PStringerVal", "Err", "StdErr", "WrapErr", "PErr", "ErrStringer",
+	case "string", "NStr", "bytes", "NBytes", "barr", "barr8", "nbarr", "nbslice", "SNArr", "ptrStr", "parr", "sarr", "Stringer", "PStringer", "PStringerVal", "Err", "StdErr", "WrapErr", "PErr", "ErrStringer",
 		"GoStringer", "GoStrStringer", "Fmter", "ErrFmter", "SVStr", "SVBytes", "SVStringer", "ISafeString", "ISafeBytes", "RegStr", "SafeMsg":
 		d.S = QS(randPayload(r, o))
 		if k == "bytes" && r.Chance(1, 15) {
@@ -124,7 +130,7 @@ func leafOfKind(r *Rng, k string, o genOpts) *D {
 		d.N = int64(r.Intn(2))
 	case "PanicStringer", "PanicErr", "PanicGoStr", "PanicFmter":
 		d.S = QS(randPayload(r, o))
-		d.N = int64(r.Intn(6))
+		d.N = int64(r.Intn(8)) // payload modes 0-7 (see panicSpec.fire)
 		if d.N == 5 {
 			d.N += 10 * int64(r.Intn(2))
 		}
@@ -274,6 +280,23 @@ func randD(r *Rng, depth int, o genOpts) *D {
 
 func randMap(r *Rng, depth int, o genOpts) *D {
 	n := r.Intn(4)
+	if o.addrs && r.Chance(1, 12) {
+		// typed maps with bool and channel keys (the nil channel sorts first, the others by address)
+		d := &D{K: []string{"bmap", "cmap"}[r.Intn(2)]}
+		used := map[int64]bool{}
+		for i := 0; i < n; i++ {
+			k := int64(r.Intn(4))
+			if d.K == "bmap" {
+				k &= 1
+			}
+			if used[k] {
+				continue
+			}
+			used[k] = true
+			d.Sub = append(d.Sub, dN("int", k), dS("string", randPayload(r, o)))
+		}
+		return d
+	}
 	switch r.Intn(5) {
 	case 3:
 		// keys of mixed kinds
@@ -306,7 +329,11 @@ func randMap(r *Rng, depth int, o genOpts) *D {
 					k = &D{K: "kstructI", N: int64(r.Intn(4)), S: QS([]string{"", "", "t"}[r.Intn(3)])}
 				}
 			case 7:
-				k = dN([]string{"karr", "uintptr", "uint", "ptrInt", "NStr", "NInt"}[r.Intn(6)], int64(r.Intn(40)))
+				ks := []string{"karr", "uintptr", "uint", "ptrInt", "NStr", "NInt"}
+				if o.addrs {
+					ks = append(ks, "kchan", "kchan", "kuptr", "kptr", "kptr")
+				}
+				k = dN(ks[r.Intn(len(ks))], int64(r.Intn(40)))
 			default:
 				k = &D{K: "kcomplex", F: float64(r.Intn(3)), N: int64(r.Intn(3))}
 			}
@@ -449,7 +476,7 @@ func randStep(r *Rng, depth int, o genOpts) *D {
 		return d
 	default:
 		if o.panics && r.Chance(1, 2) {
-			return &D{K: "sPanic", S: QS(randPayload(r, o)), N: int64(r.Intn(5))}
+			return &D{K: "sPanic", S: QS(randPayload(r, o)), N: []int64{0, 1, 2, 3, 4, 6, 7}[r.Intn(7)]}
 		}
 		return &D{K: "sVerb"}
 	}
@@ -457,7 +484,7 @@ func randStep(r *Rng, depth int, o genOpts) *D {
 
 // ---- formats ----------------------------------------------------------------------
 
-var litPieces = []string{"x", "lit ", "=", ":", " ", "\n", startM, endM, redactedM, "é", "%%", "\t", "(", ")", "?", "nº", "‰", "※", "¹", "ok ☺", "⁹"}
+var litPieces = []string{"x", "lit ", "=", ":", " ", "\n", startM, endM, redactedM, "é", "%%", "\t", "(", ")", "?", "nº", "‰", "※", "¹", "ok ☺", "⁹", "\ufffd", "\r", "\x7f"}
 var litInvalid = []string{"\xe2", "\xe2\x80", "\x80\xb9", "\xff"}
 
 func randLit(r *Rng, o genOpts) string {
@@ -478,6 +505,8 @@ type Dir struct {
 	Lit   string `json:"lit,omitempty"`
 	Flags string `json:"flags,omitempty"`
 	Width string `json:"width,omitempty"` // "", digits, "*"
+	WT    string `json:"wstar,omitempty"` // when set: the '*' width operand is starOperands[WT] instead of WArg
+	PT    string `json:"pstar,omitempty"` // same for the '*' precision
 	Prec  string `json:"prec,omitempty"`  // "", ".", ".digits", ".*"
 	Verb  string `json:"verb"`
 	WArg  int    `json:"warg,omitempty"` // operand of a '*' width
@@ -527,7 +556,46 @@ func randDir(r *Rng, o genOpts, rare bool) Dir {
 	if d.Prec == ".*" {
 		d.PArg = []int{0, 1, 3, -1, 9, 66, 69, 131}[r.Intn(8)]
 	}
+	if o.starKinds && d.Width == "*" && r.Chance(1, 6) {
+		d.WT = starNames[r.Intn(len(starNames))]
+	}
+	if o.starKinds && d.Prec == ".*" && r.Chance(1, 6) {
+		d.PT = starNames[r.Intn(len(starNames))]
+	}
 	return d
+}
+
+// starOperands: '*' operands that are not plain ints (fmt accepts every integer kind and checks the range).
+var starOperands = map[string]interface{}{
+	"int8": int8(-5), "int16": int16(7), "int32": int32(9), "int64": int64(4), "int64big": int64(1) << 40, "int64min": int64(math.MinInt64),
+	"uint": uint(6), "uint8": uint8(3), "uint16": uint16(8), "uint32": uint32(5), "uint64": uint64(7), "uintptr": uintptr(4),
+	"uint64max": uint64(math.MaxUint64), "uint64max-9": uint64(math.MaxUint64 - 9), "uintmax": ^uint(0), "uintptrmax-3": ^uintptr(3),
+	"uint64(1<<63)": uint64(1) << 63, "uint32max": uint32(math.MaxUint32), "1e6": 1000000, "1e6+1": 1000001, "-1e6-1": -1000001,
+	"string": "7", "float": 7.0, "nil": nil, "bool": true, "NInt": tNInt(6),
+}
+var starNames = func() []string {
+	var ns []string
+	for n := range starOperands {
+		if n != "1e6" { // a megabyte of padding: used in fixed cases only
+			ns = append(ns, n)
+		}
+	}
+	sort.Strings(ns)
+	return ns
+}()
+
+func (d Dir) wOperand() interface{} {
+	if d.WT != "" {
+		return starOperands[d.WT]
+	}
+	return d.WArg
+}
+
+func (d Dir) pOperand() interface{} {
+	if d.PT != "" {
+		return starOperands[d.PT]
+	}
+	return d.PArg
 }
 
 var wideForms = []string{"30", "60", "63", "64", "65", "66", "67", "68", "69", "70", "71", "100", "129", "257", "520"}
@@ -594,7 +662,22 @@ func (c *Call) String() string {
 		b.WriteString(", " + a.String())
 	}
 	b.WriteString(")")
+	for i, d := range c.Dirs {
+		if d.Width == "*" {
+			b.WriteString(" [directive " + strconv.Itoa(i) + ": '*' width operand " + starString(d.wOperand()) + "]")
+		}
+		if d.Prec == ".*" {
+			b.WriteString(" [directive " + strconv.Itoa(i) + ": '*' precision operand " + starString(d.pOperand()) + "]")
+		}
+	}
 	return b.String()
+}
+
+func starString(v interface{}) string {
+	if v == nil {
+		return "nil"
+	}
+	return reflect.TypeOf(v).String() + "(" + sprint(v) + ")"
 }
 
 var rawFrags = []string{"%", "%", "[", "]", "1", "2", "3", "*", ".", "-", "+", "#", " ", "0", "v", "d", "s", "x", "q", "T", "p", "w", "é", startM, endM, "!", "(", ")",
